@@ -11,7 +11,7 @@ import (
 
 func init() {
 	register("C03", propMeta{
-		Explanation: "E-GUARD + E-PROV + E-CONST. O-1 pool selection: AddSnowflake pushes to the heap loaded from field 'snowflakes' exactly on the natType == NATUnrestricted edge (else restrictedSnowflakes); the poll-timeout branch removes from the heap chosen by the same mapping on the same NAT value (sibling agreement); matchSnowflake pops from restrictedSnowflakes exactly on the client-NAT == NATUnrestricted edge, else from snowflakes (the complement). O-2 NAT vocabulary: the NAT constants of broker, common/nat and proxy/lib are equal, and both decoders accept exactly {\"\", unknown, restricted, unrestricted}, map \"\" to unknown, and reject everything else with an error. O-3 refusal only when the eligible pool is empty: matchSnowflake returns nil only through the false edge of Len() > 0 on the selected heap, test and pop in one critical section; ClientOffers answers 'no proxies' only when matchSnowflake returned nil. O-4 load order: Less compares the clients counts of its two arguments with strict <, clients never changes while queued, Swap/Push/Pop maintain index. Every clause is necessary: e.g. swapping the heaps in one branch gives a restricted client a restricted proxy. Added after the second seeding round: O-4 also requires that Push/Pop/Swap of SnowflakeHeap have no static caller (container/heap only); O-6 the legacy client format takes its NAT type from Header.Get(\"Snowflake-NAT-Type\") and hands it to the shared handler; O-7/C04 the deregistration obligations of C04 (a proxy leaves the pool it was put in on exactly the unclaimed edge).",
+		Explanation: "E-GUARD + E-PROV + E-CONST. O-1 pool selection: AddSnowflake pushes to the heap loaded from field 'snowflakes' exactly on the natType == NATUnrestricted edge (else restrictedSnowflakes); the poll-timeout branch removes from the heap chosen by the same mapping on the same NAT value (sibling agreement); matchSnowflake pops from restrictedSnowflakes exactly on the client-NAT == NATUnrestricted edge, else from snowflakes (the complement). O-2 NAT vocabulary: the NAT constants of broker, common/nat and proxy/lib are equal, and both decoders accept exactly {\"\", unknown, restricted, unrestricted}, map \"\" to unknown, and reject everything else with an error. O-3 refusal only when the eligible pool is empty: matchSnowflake returns nil only through the false edge of Len() > 0 on the selected heap, test and pop in one critical section; ClientOffers answers 'no proxies' only when matchSnowflake returned nil. O-4 load order: Less compares the clients counts of its two arguments with strict <, clients never changes while queued, Swap/Push/Pop maintain index. Every clause is necessary: e.g. swapping the heaps in one branch gives a restricted client a restricted proxy. Added after the second seeding round: O-4 also requires that Push/Pop/Swap of SnowflakeHeap have no static caller (container/heap only); O-6 the legacy client format takes its NAT type from Header.Get(\"Snowflake-NAT-Type\") and hands it to the shared handler; O-7/C04 the deregistration obligations of C04 (a proxy leaves the pool it was put in on exactly the unclaimed edge). Added after the third seeding round: the guarded-by rows of the matching state are evaluated here too (O-6/C03); the goroutine started per poll captures only per-iteration variables (language version of go.mod taken into account); the NAT vocabulary may be a constant lookup table (keys = vocabulary, values = mapping) instead of comparisons.",
 		NotDecided:  "correctness of container/heap, fairness between simultaneous clients, the outcome of arbitrary concurrent histories beyond 'each client pops the current minimum of its eligible pool under the lock'.",
 		Assumptions: []string{"container/heap maintains the heap order given a correct heap.Interface"},
 	}, runC03)
@@ -377,6 +377,9 @@ func (c *Ctx) checkNATSwitch(rule, rel, name string) {
 			return strip(v) == ssa.Value(natPar)
 		}
 		return isNATField(v)
+	}
+	if helperCall == nil && c.checkNATTable(rule, key, fn, isNATField) {
+		return
 	}
 	set := map[string]bool{}
 	accept := condEdges(fn, true, func(a Atom) bool {
@@ -761,4 +764,166 @@ func recvTypeOf(fn *ssa.Function) types.Type {
 		return types.Typ[types.Invalid]
 	}
 	return fn.Signature.Recv().Type()
+}
+
+// checkNATTable: the table form of the NAT vocabulary - v, ok := table[msg.NAT]
+// with a package-level map that is filled once by a constant literal and never
+// modified: the key set is the accepted vocabulary, "" maps to "unknown", every
+// other key to itself; success lies behind the ok edge and the NAT field
+// receives the looked-up value. Returns false when the decoder has no such
+// lookup (the comparison forms are judged instead).
+func (c *Ctx) checkNATTable(rule, key string, fn *ssa.Function, isNATField func(ssa.Value) bool) bool {
+	p := c.P
+	var lk *ssa.Lookup
+	allInstrs(fn, func(in ssa.Instruction) {
+		if l, ok := in.(*ssa.Lookup); ok && l.CommaOk && isNATField(l.Index) {
+			lk = l
+		}
+	})
+	if lk == nil {
+		return false
+	}
+	ld, ok := strip(lk.X).(*ssa.UnOp)
+	if !ok {
+		return false
+	}
+	g, ok := ld.X.(*ssa.Global)
+	if !ok {
+		return false
+	}
+	table, okT := globalConstStringMap(p, g)
+	if !okT {
+		c.undecided(rule, key+" accepted NAT strings", p.instrPos(lk), "NAT is looked up in "+g.Name()+", which is not a constant table filled once")
+		return true
+	}
+	keys := map[string]bool{}
+	okMap := true
+	for k, v := range table {
+		keys[k] = true
+		if (k == "" && v != "unknown") || (k != "" && v != k) {
+			okMap = false
+		}
+	}
+	wantSet := []string{"", "restricted", "unknown", "unrestricted"}
+	c.check(sameStringSet(sortedKeys(keys), wantSet), rule, key+" accepted NAT strings", p.instrPos(lk), fmt.Sprintf("keys of table %s: %q", g.Name(), sortedKeys(keys)),
+		fmt.Sprintf("decoder accepts the keys %q of %s, expected %q: a fourth NAT string can reach the matcher or a legal one is rejected", sortedKeys(keys), g.Name(), wantSet))
+	// the ok edge
+	var okV, val ssa.Value
+	for _, r := range *lk.Referrers() {
+		if ex, isEx := r.(*ssa.Extract); isEx {
+			if ex.Index == 1 {
+				okV = ex
+			} else {
+				val = ex
+			}
+		}
+	}
+	var accept []Edge
+	if okV != nil {
+		accept = condEdges(fn, true, func(a Atom) bool { return a.Op == token.ILLEGAL && strip(a.X) == okV })
+	}
+	n := 0
+	ei := errResultIndex(fn.Signature)
+	for _, r := range returnsOf(fn) {
+		if ei < 0 || !retMayBeNil(r, ei) {
+			continue
+		}
+		n++
+		path := reachableWithout(fn, r, accept)
+		c.check(len(accept) > 0 && path == nil, rule, key+" success only for an accepted NAT string", p.instrPos(r), "behind the ok result of the table lookup", "a nil-error return is reachable without the NAT field having been found in the table", p.pathString(path)...)
+	}
+	if n == 0 {
+		c.undecided(rule, key+" success only for an accepted NAT string", p.Pos(fn.Pos()), "no success return found")
+	}
+	stored, other := false, false
+	allInstrs(fn, func(in ssa.Instruction) {
+		if st, ok := in.(*ssa.Store); ok {
+			if _, f, okf := fieldOfAddr(st.Addr); okf && f.Name() == "NAT" {
+				if val != nil && strip(st.Val) == val {
+					stored = true
+				} else {
+					other = true
+				}
+			}
+		}
+	})
+	c.check(okMap && stored && !other, rule, key+" maps absent NAT to unknown", p.instrPos(lk), "table maps \"\" to unknown and every other key to itself; the NAT field receives the looked-up value", "an absent NAT type is not defaulted to \"unknown\", or a legal value is rewritten")
+	return true
+}
+
+// globalConstStringMap: g is a package-level map[string]string assigned exactly
+// once, in the package initialiser, from a literal with constant keys and
+// values, and no function of the package updates or deletes from it or lets it
+// escape other than into lookups, ranges and len.
+func globalConstStringMap(p *Prog, g *ssa.Global) (map[string]string, bool) {
+	if g.Pkg == nil {
+		return nil, false
+	}
+	var mm *ssa.MakeMap
+	stores := 0
+	okUse := true
+	var fns []*ssa.Function
+	if ini := g.Pkg.Func("init"); ini != nil {
+		fns = append(fns, ini)
+	}
+	for _, fn := range p.fns {
+		top := fn
+		for top.Parent() != nil {
+			top = top.Parent()
+		}
+		if top.Pkg == g.Pkg {
+			fns = append(fns, fn)
+		}
+	}
+	seenFn := map[*ssa.Function]bool{}
+	for _, f := range fns {
+		if seenFn[f] {
+			continue
+		}
+		seenFn[f] = true
+		allInstrs(f, func(in ssa.Instruction) {
+			switch x := in.(type) {
+			case *ssa.Store:
+				if x.Addr == ssa.Value(g) {
+					stores++
+					if f.Name() == "init" && f.Synthetic != "" {
+						mm, _ = strip(x.Val).(*ssa.MakeMap)
+					}
+				}
+			case *ssa.UnOp:
+				if x.X == ssa.Value(g) && x.Referrers() != nil {
+					for _, r := range *x.Referrers() {
+						switch u := r.(type) {
+						case *ssa.Lookup, *ssa.Range, *ssa.DebugRef:
+						case ssa.CallInstruction:
+							if calleeName(u) != "builtin.len" {
+								okUse = false
+							}
+						default:
+							okUse = false
+						}
+					}
+				}
+			}
+		})
+	}
+	if mm == nil || stores != 1 || !okUse || mm.Referrers() == nil {
+		return nil, false
+	}
+	out := map[string]string{}
+	for _, r := range *mm.Referrers() {
+		switch x := r.(type) {
+		case *ssa.MapUpdate:
+			k, ok1 := constString(x.Key)
+			v, ok2 := constString(x.Value)
+			if !ok1 || !ok2 {
+				return nil, false
+			}
+			out[k] = v
+		case *ssa.Store, *ssa.DebugRef:
+		default:
+			return nil, false
+		}
+	}
+	return out, len(out) > 0
 }
